@@ -217,6 +217,9 @@ func answer(c *Case, txp **btc.Tx, idx int, amount uint64, q string) string {
 		}
 	})
 	r.Hit("crypto-query:" + t[0])
+	if t[0] == "sigl" || t[0] == "sigw" || t[0] == "sigt" {
+		checkDigest(c, t, res)
+	}
 	if t[0] == "sigt" {
 		// hypothesis TapSigHashOk of the Lean theorems (Props/C01.lean): Tx.TaprootSigHash answers nil exactly where
 		// BIP341 defines no signature message (undefined hash type; SIGHASH_SINGLE without a matching output)
@@ -235,9 +238,104 @@ func answer(c *Case, txp **btc.Tx, idx int, amount uint64, q string) string {
 	return res
 }
 
+// txLine hands the whole spending transaction of the case to the oracle: the reference semantics computes the
+// legacy / BIP143 / BIP341 digests of it BY ITSELF (Spec/ScriptSigRef.lean) instead of taking the answers of the
+// tree's sighash functions. scriptSigs and witnesses are left out: none of the three messages contains them.
+func txLine(c *Case) string {
+	var sb strings.Builder
+	fmt.Fprintf(&sb, "tx %d %d %d %d", c.Idx, c.Version, c.LockTime, len(c.Ins))
+	for i, in := range c.Ins {
+		var ph [32]byte
+		copy(ph[:], in.PrevHash)
+		var sp Out
+		if i < len(c.Spent) {
+			sp = c.Spent[i]
+		}
+		fmt.Fprintf(&sb, " %s %d %d %d %s", vlib.Hex(ph[:]), in.Vout, in.Sequence, sp.Value, vlib.Hex(sp.Script))
+	}
+	fmt.Fprintf(&sb, " %d", len(c.Outs))
+	for _, out := range c.Outs {
+		fmt.Fprintf(&sb, " %d %s", out.Value, vlib.Hex(out.Script))
+	}
+	return sb.String()
+}
+
+func setOracleTx(c *Case) {
+	if d := o.MustAsk(txLine(c)); d != "ok" {
+		fmt.Fprintln(os.Stderr, "oracle refused the transaction of the case:", d)
+		os.Exit(3)
+	}
+}
+
+// refDigest asks the Lean reference (the specification's own message, hashed in Lean) for one digest of case c.
+// q is `sigl <sc> <ht>` | `sigw <sc> <ht>` | `sigt <annex:opt, the annex itself> <leaf> <codesep> <ht> <0|1>`.
+// Returns the digest, or nil with defined=true where the rules define no message (BIP341: undefined hash type,
+// SIGHASH_SINGLE without output), or defined=false where the reference says nothing (legacy: script code that
+// does not decode).
+func refDigest(c *Case, q string) (d []byte, defined bool) {
+	setOracleTx(c)
+	rep := o.MustAsk("refsig " + q)
+	switch rep {
+	case "undef":
+		return nil, false
+	case "-":
+		return nil, true
+	case "bad-op":
+		fmt.Fprintln(os.Stderr, "oracle refused refsig", q)
+		os.Exit(3)
+	}
+	return vlib.UnHex(rep), true
+}
+
+// annexOfWitness: BIP341 — the last of at least two witness elements when its first byte is 0x50
+func annexOfWitness(w []HexB) []byte {
+	if len(w) >= 2 && len(w[len(w)-1]) > 0 && w[len(w)-1][0] == 0x50 {
+		return []byte(w[len(w)-1])
+	}
+	return nil
+}
+
+// checkDigest compares the answer of the tree's sighash function to one crypto query with the reference digest.
+// The OBSERVABLE of the property is the verdict (compared in runCase, where the reference semantics runs on the
+// reference digests); this comparison only names the cause and catches differences no generated spend turned
+// into a different verdict.
+func checkDigest(c *Case, t []string, res string) {
+	if c == nil {
+		return
+	}
+	q := strings.Join(t, " ")
+	if t[0] == "sigt" {
+		annex := annexOfWitness(c.Ins[c.Idx].Witness)
+		have := "none"
+		if annex != nil {
+			have = vlib.Hex(sha2(cat(compactSize(len(annex)), annex)))
+		}
+		if have != t[1] {
+			r.Hit("sighash-vs-reference:skipped(annex hash not of this witness)")
+			return
+		}
+		a := "none"
+		if annex != nil {
+			a = vlib.Hex(annex)
+		}
+		q = "sigt " + a + " " + strings.Join(t[2:], " ")
+	}
+	d, defined := refDigest(c, q)
+	if !defined {
+		r.Hit("sighash-vs-reference:skipped(reference undefined)")
+		return
+	}
+	if vlib.Hex(d) != res {
+		r.TieFail("sighash-vs-reference:"+t[0], fmt.Sprintf("the tree's signature-hash function answers %s to `%s`, the specification's message hashes to %s (input %d of a %d-in/%d-out transaction)", res, trunc(strings.Join(t, " ")), vlib.Hex(d), c.Idx, len(c.Ins), len(c.Outs)), c)
+	} else {
+		r.Hit("sighash-vs-reference:agree:" + t[0])
+	}
+}
+
 // dialogue sends a request and serves the oracle's `need` replies until a `res` line arrives.
 func dialogue(line string, c *Case, tx *btc.Tx, idx int, amount uint64) map[string]string {
 	o.MustAsk("reset")
+	setOracleTx(c)
 	for round := 0; round < 400; round++ {
 		rep := o.MustAsk(line)
 		if strings.HasPrefix(rep, "need ") {
@@ -331,6 +429,9 @@ func runCase(c *Case) (impl, model, spec string) {
 		key, src := "spec-vs-core-vector", "the Bitcoin Core vector"
 		if strings.HasPrefix(c.Kind, "tapscript:budget") {
 			key, src = "spec-vs-budget-arithmetic", "the harness's own BIP342 budget arithmetic"
+		}
+		if strings.HasPrefix(c.Kind, "hashtype:") {
+			key, src = "spec-vs-hashtype-rule", "the rule what a hash type commits to (every byte is a valid ECDSA hash type without STRICTENC; bits 0..4: NONE / SINGLE / else ALL; bit 7: ANYONECANPAY)"
 		}
 		if (c.Expect == "OK") != specOK {
 			r.TieFail(key, fmt.Sprintf("the reference semantics gives %s where %s demands %s (%s)", spec, src, c.Expect, c.Note), c)
@@ -522,7 +623,7 @@ func main() {
 		"the Tx object handed to VerifyTxScript is well formed: Idx < len(TxIn), SegWit is nil or has one entry per input, Spent_outputs holds every spent output (as chain.commitTxs / txpool prepare it)",
 		"HookVerifyTxScript is nil; btc.EC_Verify / btc.Schnorr_Verify / btc.Check_PayToContract are nil (pure-Go cryptography; client/speedups would replace all three answers)",
 		"the taproot / tapscript rules of the reference (BIP341/342) have no external vector in this tree (script_tests / tx_valid / tx_invalid carry none, lib/test/bip341_script_tests.json is empty): for them the run shows code = model = reference, the reference itself is validated by reading only",
-		"cryptography (signature hashes, ECDSA / Schnorr verification, tweak check) is whatever the real btc functions answer (properties C02, C03); SHA-256 / RIPEMD-160 / SHA-1 are the Lean implementations, cross-checked here",
+		"ECDSA / Schnorr verification is whatever the real btc functions answer (property C03); the signature digests of the REFERENCE side are the Lean specification's own (legacy / BIP143 / BIP341 messages of the whole transaction, Spec/SigHash.lean + Spec/ScriptSigRef.lean), those of the model side are the answers of the tree's Tx.SignatureHash / WitnessSigHash / TaprootSigHash, and the two are compared on every query; SHA-256 / RIPEMD-160 / SHA-1 are the Lean implementations, cross-checked here",
 		"reference semantics = Bitcoin Core interpreter.cpp as written down in lean/GocoinV/Spec/Script.lean (spec decisions listed there)",
 	}
 	if r.Replay != "" {
